@@ -4,20 +4,26 @@ claimed; the others are listed under not_applicable with the reason)."""
 import json, os, sys
 HERE = os.path.dirname(os.path.dirname(os.path.abspath(__file__)))
 
-CHECKS = {
-    # id: (technique, level text, level note, design ref)
-    "C01": ("runtime differential monitor: independent longdouble forward model vs C/Python/numba routes, OMP thread-count differential",
-            "Exploration: every route that computes lab coordinates/angles/g-vectors is executed on generated parameter classes (8 flips x 2^11 on/off switches; pairwise+random in quick, all 16384 in thorough) and compared value-by-value with an independent reference model; OpenMP loops re-run at 1..64 threads for bit-equality. Holds on the executions listed in the evidence, not for all inputs.",
-            "Trusts the harness model in vlib/geom.py (validated against both Python and C routes), numpy longdouble arithmetic, and tolerances derived from conditioning (stated in evidence.assumptions).",
-            "DESIGN.md section 4 C01"),
-}
+import importlib
+sys.path.insert(0, HERE)
+
+
+def meta(c):
+    try:
+        m = importlib.import_module("vlib.checks." + c.lower())
+    except ImportError:
+        return None
+    if not hasattr(m, "TECHNIQUE"):
+        return None
+    return (m.TECHNIQUE, m.LEVEL_TEXT, m.LEVEL_NOTE, "DESIGN.md section 4 " + c)
+
 
 ALL = ["C%02d" % i for i in range(1, 21)]
 
 
 def main():
-    impl = [c for c in ALL if os.path.exists(os.path.join(HERE, "vlib", "checks", c.lower() + ".py"))
-            and c in CHECKS]
+    CHECKS = {c: meta(c) for c in ALL}
+    impl = [c for c in ALL if CHECKS[c] is not None]
     checks = []
     for c in impl:
         tech, text, note, ref = CHECKS[c]
